@@ -361,3 +361,5 @@ ENTRIES["C18"]["text"] += (" TieCons.randomAngle_is_source ([G]): the per-joint 
 ENTRIES["C13"]["text"] += (" Props/C13b ([G]): plan_rrt_nodes_legal_and_free -- with the acceptance closure that tools/rs2lean_rrt.py reads from the CURRENT text of "
     "RRTPlanner::plan_path (inside the robot's limits AND not reported colliding by the same robot), every interior node of a returned path is a six-joint "
     "vector within limits and collision-free, for every robot, sample stream, step, budget and cancellation history.")
+ENTRIES["C12"]["text"] += (" Props/TieCart ([G]): add_intermediate_poses (expression by expression), with_intermediate_poses (idiom) and utils::transition_costs, read from the "
+    "CURRENT source on every run, are the model's intermediatePoses / withIntermediatePoses / transitionCosts.")
